@@ -72,6 +72,18 @@ def directed(tier):
                 entry["node"] = 6
             out.append({"graph": {"nodes": copy.deepcopy(nodes), "junk": [], "tag": "hlp%s%s" % (form[:1], oc[:1])}, "entry": entry, "store_skips": False,
                         "observers": [], "placement": "directed-helper-datasource"})
+    # evaluations running at the same time: a parser over a list that gives up at its first failing element, the failing
+    # element at every position
+    for pos in range(4):
+        for oc in ("ce", "cpe", "boom"):
+            eo = ["value"] * 4
+            eo[pos] = oc
+            nodes = [dict(base_ds, multi=True, nelem=4),
+                     dict(par, continue_on_error=False, elem_outcomes=eo),
+                     dict(par, continue_on_error=True, elem_outcomes=eo),
+                     dict(user, opt=[1, 2])]
+            out.append({"kind": "concurrent", "graph": {"nodes": copy.deepcopy(nodes), "junk": [], "tag": "cc%d%s" % (pos, oc[:2])}, "store_skips": pos % 2 == 0,
+                        "host": False, "threads": 4, "rounds": 12})
     from vpmon.props import c01
     out.append({"kind": "suite", "paths": c01.SUITE_QUICK if tier == "quick" else []})
     return out
@@ -91,7 +103,7 @@ def gen_case(rng, tier, idx):
                 if isinstance(first, int) and gg["nodes"][first]["kind"] in ("datasource", "impl") and gg["nodes"][first]["outcome"] == "value":
                     gg["nodes"][first]["multi"] = True
                     gg["nodes"][first]["nelem"] = 4
-        return {"kind": "concurrent", "graph": gg, "store_skips": rng.random() < 0.5, "host": False, "threads": rng.choice([2, 3, 4])}
+        return {"kind": "concurrent", "graph": gg, "store_skips": rng.random() < 0.5, "host": False, "threads": rng.choice([2, 3, 4, 6])}
     g = G.gen_spec(rng, tier, max_nodes=9 if tier == "quick" else 14, fault_rate=0.0, allow_seeded=False)
     for nd in g["nodes"]:
         if nd["kind"] == "parser":
@@ -217,7 +229,7 @@ def run_concurrent(spec, ctx):
         alone = dr.run(dict(graph), broker=c04.mk_broker(spec, b))
         d0, _ = c04.digest([alone], b)
         n = spec["threads"]
-        for round_ in range(4):
+        for round_ in range(spec.get("rounds", 4)):
             results = [None] * n
             gate = threading.Barrier(n)
 
